@@ -157,8 +157,10 @@ def verify_function(reg, contract, prefix=""):
             for (txt, node) in contract.ensures:
                 ctx.oblige(o, spec_eval(tmp, node), "post", fsrc.node, "ensures " + txt)
             if contract.raises_exact:
+                from .api import is_exact
+
                 for cls, (name, cond) in raise_conds.items():
-                    if cond is not None:
+                    if cond is not None and is_exact(contract, name):
                         ctx.oblige(o, z3.Not(spec_eval(entry_with_pc(entry, o), cond[1])), "raises-iff", fsrc.node,
                                    "returns normally only when not (%s)" % cond[0])
             check_frame(ex, ctx, contract, entry, o, fsrc)
